@@ -82,6 +82,11 @@ CHECKS = {
     note='Trusted: z3, transliterator, zgesv contract stub; the sympy-built polynomial basis is untrusted (re-checked by the solver). Convergence of the CyRK integrators within tolerance is NOT decided (no solver-based handle on numerical integration); stated as outside.',
     technique='symbolic execution of the transliterated pipeline + z3 rational-function identities against the closed form',
     design='2/C01'),
+ 'C06': dict(
+    text='Bounded symbolic path exploration of the control skeleton of cf_radial_solver / radial_solver (scale/restore, allocate/free with points-to for the nested storage, raise/return, try/finally; nondimensionalize and raise_on_fail as shared z3 Booleans, loops 0/1): per exit site z3 decides that no feasible path leaves the arrays scaled or an allocation live, and that failures raise under raise_on_fail; extents of the surface kernel and redim(nondim(x))=x included; every bad exit is replayed on the real compiled solver in a subprocess (exception, arrays before/after, exit status), plus fixed dynamic runs for liquid surface layers, validation and step-budget failures.',
+    note='Trusted: z3, transliterator, skeleton executor (opaque conditions independent: over-approximation). CyRK internals, hangs and NaN material values inside the integrator are outside.',
+    technique='symbolic execution of the control skeleton (path conditions in z3) + replay on the real build',
+    design='2/C06'),
 }
 NOT_YET = {}
 ALL = ['C%02d' % i for i in range(1, 21)]
